@@ -762,7 +762,20 @@ func (fr *Frame) alloc(i *ssa.Alloc, st *State, reach Term) *State {
 	switch kindOf(pt) {
 	case KStruct:
 		fr.vals[i] = Val{K: KRef, T: i.Type(), A: ref}
-		return fr.storeObj(st, ref, pt, fr.zeroVal(pt))
+		st = fr.storeObj(st, ref, pt, fr.zeroVal(pt))
+		// declared ghost fields of a new object start at zero (e.g. the output length of a bytes.Buffer)
+		tn := typeName(pt)
+		for _, gf := range fr.v.contracts.GhostFields {
+			if gf.Struct == tn && (gf.Type == "int" || gf.Type == "bool") {
+				l := &Loc{Comp: "H:" + tn + "." + gf.Name, Ref: ref}
+				if gf.Type == "int" {
+					st = fr.writeLeaf(st, l, "", "Int", "0")
+				} else {
+					st = fr.writeLeaf(st, l, "", "Bool", "false")
+				}
+			}
+		}
+		return st
 	case KArr:
 		if at, ok := pt.Underlying().(*types.Array); ok {
 			fr.vals[i] = Val{K: KArr, T: i.Type(), A: ref}
